@@ -1484,10 +1484,14 @@ class MeshRegion:
         # cosBeta = delta_x.delta_psi
         self.cosBeta.centre = delta_x[0] * delta_psi[0] + delta_x[1] * delta_psi[1]
 
-        # Rotate delta_psi 90 degrees clockwise gives unit vector in e_y direction
-        delta_y = [delta_psi[1], -delta_psi[0]]
+        # Rotating delta_psi 90 degrees clockwise gives the unit vector in the direction
+        # of the poloidal magnetic field, which is the e_y direction when bpsign>0 and
+        # the -e_y direction when bpsign<0. The expressions for the metric components in
+        # calcMetric() take beta to be positive when e_x leans towards -e_y, so
+        # sin(beta) = -e_x_hat.e_y_hat = delta_x.delta_y with delta_y the unit vector in
+        # the -e_y direction
+        delta_y = [-self.bpsign * delta_psi[1], self.bpsign * delta_psi[0]]
 
-        # sin(beta) = cos(pi/2 - beta) = e_x_hat.e_y_hat = delta_x.delta_y
         self.sinBeta.centre = delta_x[0] * delta_y[0] + delta_x[1] * delta_y[1]
 
         # for ylow points
@@ -1516,10 +1520,9 @@ class MeshRegion:
         # cosBeta = delta_x.delta_psi
         self.cosBeta.ylow = delta_x[0] * delta_psi[0] + delta_x[1] * delta_psi[1]
 
-        # Rotate delta_psi 90 degrees clockwise gives unit vector in e_y direction
-        delta_y = [delta_psi[1], -delta_psi[0]]
+        # unit vector in the -e_y direction, see above
+        delta_y = [-self.bpsign * delta_psi[1], self.bpsign * delta_psi[0]]
 
-        # sin(beta) = cos(pi/2 - beta) = e_x.e_y = delta_x.delta_y
         self.sinBeta.ylow = delta_x[0] * delta_y[0] + delta_x[1] * delta_y[1]
 
         self.tanBeta = self.sinBeta / self.cosBeta
